@@ -1,7 +1,9 @@
 package dom
 
 import (
+	"encoding/json"
 	"fmt"
+	"strings"
 	"runtime"
 	"strconv"
 	"sync"
@@ -31,10 +33,13 @@ type note struct {
 }
 
 type recorder struct {
-	mu    sync.Mutex
-	notes []note
-	byRep map[string]int // reply subject -> callback id
-	grp   map[int]string // callback id -> group
+	mu      sync.Mutex
+	notes   []note
+	byRep   map[string]int    // reply subject -> callback id
+	grp     map[int]string    // callback id -> group
+	rgroup  map[string]string // resource name -> group (for query expiry)
+	nilIDs  map[string][]int  // resource name -> ids allocated for pending expiry callbacks
+	nextNil int
 }
 
 func goid() int {
@@ -51,10 +56,26 @@ func goid() int {
 func (r *recorder) add(point, wid string, n int) {
 	g := goid()
 	r.mu.Lock()
-	if point == "s.request" {
+	switch point {
+	case "s.request", "s.qrequest":
 		// translate the reply subject into the callback id and the group the harness expects
 		id := r.byRep[wid]
 		wid = r.grp[id]
+		n = id
+	case "s.qexpire":
+		// the expiry callback of a query event on resource wid: allocate its callback id
+		r.nextNil++
+		id := 1000000 + r.nextNil
+		rname := wid
+		wid = r.rgroup[rname]
+		if r.grp == nil {
+			r.grp = map[int]string{}
+		}
+		r.grp[id] = wid
+		if r.nilIDs == nil {
+			r.nilIDs = map[string][]int{}
+		}
+		r.nilIDs[rname] = append(r.nilIDs[rname], id)
 		n = id
 	}
 	r.notes = append(r.notes, note{g, point, wid, n})
@@ -100,7 +121,11 @@ func runPoolWorkload(r *gen.R, c poolCfg, emit func(string)) {
 	s.SetLogger(svc.NopLogger{})
 	s.SetWorkerCount(c.workers)
 	s.SetInChannelSize(c.inch)
+	s.SetQueryEventDuration(3 * time.Millisecond)
+	rec.rgroup = map[string]string{}
 	var started, ended int64
+	var qeCreated, qeExpired int64
+
 	body := func(id int, seedv uint64) {
 		rec.add("h.cbstart", "", id)
 		atomic.AddInt64(&started, 1)
@@ -123,11 +148,46 @@ func runPoolWorkload(r *gen.R, c poolCfg, emit func(string)) {
 		body(p.ID, p.S)
 		r.OK(nil)
 	}
-	s.Handle("r.$id", res.Call("do", handler))
-	s.Handle("g.$id", res.Call("do", handler), res.Group("grp.${id}"))
+	// a call that starts a query event on its resource; the query callback records itself like
+	// every other callback: requests carry their id in the query, the nil call takes the id the
+	// recorder allocated at the expiry note
+	qeHandler := func(r res.CallRequest) {
+		var p struct {
+			ID int    `json:"id"`
+			S  uint64 `json:"s"`
+		}
+		r.ParseParams(&p)
+		rec.add("h.cbstart", "", p.ID)
+		rname := r.ResourceName()
+		atomic.AddInt64(&qeCreated, 1)
+		r.QueryEvent(func(q res.QueryRequest) {
+			if q == nil {
+				rec.mu.Lock()
+				ids := rec.nilIDs[rname]
+				id := 0
+				if len(ids) > 0 {
+					id = ids[0]
+					rec.nilIDs[rname] = ids[1:]
+				}
+				rec.mu.Unlock()
+				rec.add("h.cbstart", "", id)
+				rec.add("h.cbend", "", id)
+				atomic.AddInt64(&qeExpired, 1)
+				return
+			}
+			id, _ := strconv.Atoi(strings.TrimPrefix(q.Query(), "id="))
+			body(id, uint64(id))
+		})
+		atomic.AddInt64(&ended, 1)
+		rec.add("h.cbend", "", p.ID)
+		r.OK(nil)
+	}
+	s.Handle("r.$id", res.Call("do", handler), res.Call("qe", qeHandler))
+	s.Handle("g.$id", res.Call("do", handler), res.Call("qe", qeHandler), res.Group("grp.${id}"))
 	s.Handle("p.$id", res.Call("do", handler), res.Parallel(true))
 
 	emit("reset")
+	var qsubmitted int64
 	nextID := 1
 	var idMu sync.Mutex
 	newID := func(group string) int {
@@ -142,6 +202,33 @@ func runPoolWorkload(r *gen.R, c poolCfg, emit func(string)) {
 	}
 	for cycle := 0; cycle < c.cycles; cycle++ {
 		conn := recconn.New()
+		// every query event announced on the connection gets one query request from the harness
+		conn.OnPub = func(p recconn.Pub) {
+			if !strings.HasPrefix(p.Subject, "event.pool.") || !strings.HasSuffix(p.Subject, ".query") {
+				return
+			}
+			var ev struct {
+				Subject string `json:"subject"`
+			}
+			if json.Unmarshal(p.Data, &ev) != nil || ev.Subject == "" {
+				return
+			}
+			rname := strings.TrimSuffix(strings.TrimPrefix(p.Subject, "event."), ".query")
+			go func() {
+				rec.mu.Lock()
+				group := rec.rgroup[rname]
+				rec.mu.Unlock()
+				id := newID(group)
+				reply := fmt.Sprintf("_INBOX.pq%d", id)
+				rec.mu.Lock()
+				rec.byRep[reply] = id
+				rec.mu.Unlock()
+				atomic.AddInt64(&qsubmitted, 1)
+				if conn.Deliver(ev.Subject, reply, []byte(fmt.Sprintf(`{"query":"id=%d"}`, id))) == 0 {
+					atomic.AddInt64(&qsubmitted, -1)
+				}
+			}()
+		}
 		served := make(chan struct{})
 		s.SetOnServe(func(*res.Service) { close(served) })
 		serveDone := make(chan error, 1)
@@ -157,6 +244,9 @@ func runPoolWorkload(r *gen.R, c poolCfg, emit func(string)) {
 		var wg sync.WaitGroup
 		var submitted int64
 		atomic.StoreInt64(&ended, 0)
+		atomic.StoreInt64(&qsubmitted, 0)
+		atomic.StoreInt64(&qeCreated, 0)
+		atomic.StoreInt64(&qeExpired, 0)
 		stopSub := int32(0)
 		for k := 0; k < c.subs; k++ {
 			wg.Add(1)
@@ -178,11 +268,21 @@ func runPoolWorkload(r *gen.R, c poolCfg, emit func(string)) {
 					case c.requests && kind < 4:
 						// a request message through the connection
 						var subj, group string
-						switch sr.Intn(3) {
+						switch sr.Intn(5) {
 						case 0:
 							subj, group = fmt.Sprintf("call.pool.r.%d.do", gi), fmt.Sprintf("pool.r.%d", gi)
 						case 1:
 							subj, group = fmt.Sprintf("call.pool.g.%d.do", gi), fmt.Sprintf("grp.%d", gi)
+						case 2:
+							subj, group = fmt.Sprintf("call.pool.g.%d.qe", gi), fmt.Sprintf("grp.%d", gi)
+							rec.mu.Lock()
+							rec.rgroup[fmt.Sprintf("pool.g.%d", gi)] = group
+							rec.mu.Unlock()
+						case 3:
+							subj, group = fmt.Sprintf("call.pool.r.%d.qe", gi), fmt.Sprintf("pool.r.%d", gi)
+							rec.mu.Lock()
+							rec.rgroup[fmt.Sprintf("pool.r.%d", gi)] = group
+							rec.mu.Unlock()
 						default:
 							subj, group = fmt.Sprintf("call.pool.p.%d.do", gi), ""
 						}
@@ -219,7 +319,8 @@ func runPoolWorkload(r *gen.R, c poolCfg, emit func(string)) {
 			wg.Wait()
 			// wait until everything submitted has run
 			deadline := time.Now().Add(10 * time.Second)
-			for atomic.LoadInt64(&ended) < atomic.LoadInt64(&submitted) && time.Now().Before(deadline) {
+			for (atomic.LoadInt64(&ended) < atomic.LoadInt64(&submitted)+atomic.LoadInt64(&qsubmitted) ||
+				atomic.LoadInt64(&qeExpired) < atomic.LoadInt64(&qeCreated)) && time.Now().Before(deadline) {
 				time.Sleep(200 * time.Microsecond)
 			}
 			rec.add("h.quiescent", "", int(atomic.LoadInt64(&submitted)))
